@@ -446,9 +446,11 @@ func Run(args []string) int {
 	nsets := fl.Int("sets", 3, "file sets per sequence")
 	maxFiles := fl.Int("maxfiles", 4, "files per set")
 	doubles := fl.Int("doubles", 40, "double failures per sequence; -1 = all")
+	genDoubles := fl.Int("gendoubles", -2, "the same for the sequences of the real-generator family (default: as -doubles)")
 	workers := fl.Int("workers", 8, "parallel workers")
 	tmp := fl.String("tmp", "/verif/work/tmp", "parent of the scratch roots")
 	replay := fl.String("replay", "", "run exactly this scenario (model vocabulary) and print it")
+	replayFile := fl.String("replayfile", "", "run every scenario of this file (one per line, '#' comments)")
 	if err := fl.Parse(args); err != nil {
 		return 2
 	}
@@ -467,23 +469,41 @@ func Run(args []string) int {
 	out := bufio.NewWriterSize(os.Stdout, 1<<20)
 	defer out.Flush()
 
-	if *replay != "" {
-		sc, err := Decode(*replay)
-		if err != nil {
-			fmt.Fprintln(os.Stderr, "replay:", err)
-			return 2
+	if *replay != "" || *replayFile != "" {
+		var lines []string
+		if *replay != "" {
+			lines = append(lines, *replay)
+		}
+		if *replayFile != "" {
+			b, err := os.ReadFile(*replayFile)
+			if err != nil {
+				fmt.Fprintln(os.Stderr, err)
+				return 2
+			}
+			for _, l := range strings.Split(string(b), "\n") {
+				if l = strings.TrimSpace(l); l != "" && !strings.HasPrefix(l, "#") {
+					lines = append(lines, l)
+				}
+			}
 		}
 		w, err := newWorld(filepath.Join(base, "w0"))
 		if err != nil {
 			fmt.Fprintln(os.Stderr, err)
 			return 2
 		}
-		obs, err := w.run(sc)
-		if err != nil {
-			fmt.Fprintln(os.Stderr, err)
-			return 2
+		for _, l := range lines {
+			sc, err := Decode(l)
+			if err != nil {
+				fmt.Fprintln(os.Stderr, "replay:", err)
+				return 2
+			}
+			obs, err := w.run(sc)
+			if err != nil {
+				fmt.Fprintln(os.Stderr, err)
+				return 2
+			}
+			fmt.Fprintf(out, "M %s\tO %s\tF corpus/replay\n", sc.Encode(), encObs(obs))
 		}
-		fmt.Fprintf(out, "M %s\tO %s\tF replay\n", sc.Encode(), encObs(obs))
 		return 0
 	}
 
@@ -585,16 +605,20 @@ func Run(args []string) int {
 					if j == s.i && l <= s.k {
 						continue
 					}
-					for _, f := range faultsFor(r, o.Log[l], false) {
+					for _, f := range faultsFor(r, o.Log[l], true) {
 						sc, _ := applyFault(s.sc, j, l, f)
 						djobs = append(djobs, job{sc, fmt.Sprintf("double:%s:%c+%s:%c", s.opKind, s.f.Kind, o.Log[l], f.Kind)})
 					}
 				}
 			}
 		}
-		if *doubles >= 0 && len(djobs) > *doubles {
+		limit := *doubles
+		if family == "generator" && *genDoubles != -2 {
+			limit = *genDoubles
+		}
+		if limit >= 0 && len(djobs) > limit {
 			rng.Shuffle(r, djobs)
-			djobs = djobs[:*doubles]
+			djobs = djobs[:limit]
 		}
 		dres := runAll(djobs)
 		emit(djobs, dres)
